@@ -438,6 +438,14 @@ theorem gml_relabel_roundtrip_directed (ty : GType) (hty : ty = .digraph ∨ ty 
   · have : G'.stillDag = true := by rw [h7]; exact hd rfl
     simp only [readNx, diOfNx, h1', this, if_true]
 
+/-- T-C14.4b' bipartite graphs, gml and dot (modulo the third-party writer/parser, which must
+keep the node order, the `bipartite` attribute and the edges): `BipartiteGraph.from_networkx` does
+NOT sort labels, it numbers each side in node order, and gives back the same graph — also
+for ten or more vertices -/
+theorem bipartite_nx_roundtrip {G : BipG} (h : BipG.Inv G) :
+    ∃ G', bipOfNx (bipToNx G).1 (bipToNx G).2 = .ok G' ∧ SameAny (.bip G) (.bip G') :=
+  bipOfNx_bipToNx h
+
 /-- T-C14.4c dot: pydot returns the labels as decimal STRINGS; sorted lexicographically they
 keep their numeric order exactly when there are at most nine of them.  For `n ≤ 9` the
 relabelling is the identity … -/
